@@ -297,6 +297,164 @@ def known_cases(table):
     ]
 
 
+# ----------------------------------------------------------------------------- PDUOption storage level (harness c12_option)
+
+OPT_HARNESS = "c12_option"
+OPT_CASE_START = ("sinit",)
+NU, VCAP = 6, 4
+OPT_LENS = [0, 1, 7, 8, 9, 16, 255, 300]
+
+
+def opt_len(rng):
+    r = rng.random()
+    if r < 0.70:
+        return rng.choice(OPT_LENS)
+    if r < 0.97:
+        return rng.randrange(0, 24)
+    if r < 0.995:
+        return rng.choice([33, 64, 1000, 4096])
+    return rng.choice([65535, 65536, 70000])          # option_payload_too_large from 65536 on
+
+
+def opt_ctor(rng, i):
+    """one of the four constructors; advertised length mostly different from the real one where the form allows it"""
+    code, ln, fill = rng.randrange(256), opt_len(rng), rng.randrange(256)
+    k = rng.randrange(4)
+    if k == 0:
+        return f"snull {i} {code} {rng.choice([0, 1, 8, 9, 300, 65535, 65536, 70000])}", 0
+    if k == 1:
+        return f"sdata {i} {code} {ln} {fill}", ln
+    if k == 2:
+        return f"srange {i} {code} {ln} {fill}", ln
+    adv = rng.choice([0, 1, 8, 9, ln, ln + 1, max(ln, 1) - 1, 255, 65535, 65536 + ln])
+    return f"sadv {i} {code} {adv} {ln} {fill}", ln
+
+
+def gen_opt_case(rng, nops):
+    """a program over NU user slots and a vector of capacity VCAP; the shadow keeps most operations inside the guard"""
+    live = [False] * NU
+    vlen = 0
+    ops = [f"sinit {NU} {VCAP}"]
+
+    def lives():
+        return [i for i in range(NU) if live[i]] + [NU + k for k in range(vlen)]
+
+    kinds = (["new"] * 5 + ["copy"] * 2 + ["move"] * 2 + ["assign"] * 4 + ["massign"] * 4 + ["del"] * 2 + ["read"] +
+             ["vpush"] * 2 + ["vmove"] + ["verase"] * 2 + ["vpop"])
+    for _ in range(nops):
+        k = rng.choice(kinds)
+        wild = rng.random() < 0.04
+        free = [i for i in range(NU) if not live[i]]
+        ls = lives()
+        anyslot = rng.randrange(NU + VCAP)
+        if k == "new":
+            i = rng.choice(free) if free and not wild else anyslot
+            line, ln = opt_ctor(rng, i)
+            ops.append(line)
+            if i < NU and not live[i] and ln <= 65535:
+                live[i] = True
+        elif k in ("copy", "move"):
+            if not (free and ls) and not wild:
+                continue
+            i = rng.choice(free) if free and not wild else anyslot
+            j = rng.choice(ls) if ls and not wild else anyslot
+            ops.append(f"s{k} {i} {j}")
+            if i < NU and not live[i] and j in ls:
+                live[i] = True
+        elif k in ("assign", "massign"):
+            if not ls and not wild:
+                continue
+            i = rng.choice(ls) if ls and not wild else anyslot
+            j = i if rng.random() < 0.25 else (rng.choice(ls) if ls and not wild else anyslot)
+            ops.append(f"s{k} {i} {j}")
+        elif k == "del":
+            us = [i for i in range(NU) if live[i]]
+            if not us and not wild:
+                continue
+            i = rng.choice(us) if us and not wild else anyslot
+            ops.append(f"sdel {i}")
+            if i < NU:
+                live[i] = False
+        elif k == "read":
+            if ls:
+                ops.append(f"sread {rng.choice(ls)}")
+        elif k in ("vpush", "vmove"):
+            if not ls and not wild:
+                continue
+            j = rng.choice(ls) if ls and not wild else anyslot
+            ops.append(f"{k} {j}")
+            if j in ls and vlen < VCAP:
+                vlen += 1
+        elif k == "verase":
+            if vlen == 0 and not wild:
+                continue
+            e = rng.randrange(vlen) if vlen and not wild else rng.randrange(VCAP + 1)
+            ops.append(f"verase {e}")
+            if e < vlen:
+                vlen -= 1
+        elif k == "vpop":
+            ops.append("vpop")
+            if vlen:
+                vlen -= 1
+    ops.append("send")
+    return ops
+
+
+OPT_PRELUDE = [f"sinit {NU} {VCAP}", "sdata 0 10 3 1", "srange 1 11 12 32", "sadv 2 12 5 20 64", "srange 4 14 9 96",
+               "vpush 4", "sdel 4", "sdata 4 15 8 128", "vmove 4", "sdel 4", "srange 4 16 16 160", "vmove 4", "sdel 4"]
+# user: 0 small(3)  1 heap(12)  2 heap(20, advertised 5)  3 free  4 free  5 free ; vector: heap(9) small(8) heap(16)
+
+
+def opt_atoms():
+    occ = [0, 1, 2, NU, NU + 1, NU + 2]
+    atoms = []
+    for i in occ:
+        for j in occ:
+            atoms += [f"sassign {i} {j}", f"smassign {i} {j}"]
+        atoms += [f"scopy 3 {i}", f"smove 3 {i}", f"vpush {i}", f"vmove {i}", f"sread {i}"]
+    atoms += ["sdel 0", "sdel 1", "sdel 2", "sdel 3", "verase 0", "verase 1", "verase 2", "verase 3", "vpop",
+              "snull 3 1 9", "sdata 3 2 9 7", "srange 3 3 8 7", "sadv 3 4 9 0 7"]
+    return atoms
+
+
+def opt_exhaustive(rng, limit, depth=2):
+    """small scope: every program of `depth` operations on a fixed pool holding small and heap-backed options of
+    different lengths in user slots and in the vector (quick tier: a seeded sample of it)"""
+    atoms = opt_atoms()
+    if depth == 2:
+        progs = list(itertools.product(range(len(atoms)), repeat=2))
+        if limit < len(progs):
+            progs = rng.sample(progs, limit)
+    else:
+        progs = [tuple(rng.randrange(len(atoms)) for _ in range(depth)) for _ in range(limit)]
+    return [OPT_PRELUDE + [atoms[i] for i in idx] + ["send"] for idx in progs]
+
+
+def opt_known_cases():
+    return [
+        # KF-C12-2 (fixed): copy assignment onto itself, heap-backed and small; then move assignment onto itself
+        [f"sinit {NU} {VCAP}", "sdata 0 3 12 65", "sassign 0 0", "sdata 1 4 8 1", "sassign 1 1", "smassign 1 1", "smassign 0 0", "send"],
+        # what seeded/C04 changed: move assignment between two heap-backed options of different advertised lengths,
+        # directly and through vector::erase
+        [f"sinit {NU} {VCAP}", "sadv 0 1 40 12 0", "sadv 1 2 50 20 0", "smassign 0 1", "sread 1", "send"],
+        [f"sinit {NU} {VCAP}", "srange 0 1 12 0", "srange 1 2 20 0", "vmove 0", "vmove 1", "verase 0", "send"],
+        # what seeded/C12c changed: copy assignment of a shorter option onto a heap-backed one
+        [f"sinit {NU} {VCAP}", "srange 0 1 12 0", "srange 1 2 3 9", "sassign 0 1", "srange 2 3 10 5", "srange 3 4 30 5",
+         "sassign 3 2", "send"],
+    ]
+
+
+def classify_opt(op, impl):
+    w = op.split(" ")
+    st = impl.split(" ", 1)[0]
+    tag = w[0]
+    if st not in ("ok", "init", "end"):
+        tag += ":" + st[:12]
+    elif w[0] in ("sassign", "smassign") and len(w) == 3:
+        tag += ":self" if w[1] == w[2] else (":vec" if int(w[1]) >= NU or int(w[2]) >= NU else "")
+    return tag
+
+
 def classify(op, impl):
     w = op.split(" ")
     st = impl.split(" ", 1)[0]
@@ -340,6 +498,26 @@ def run(chk):
         focus = [table[(i * 3 + j * 11) % len(table)] for j in range(k)]
         ops += gen_case(rng, table, rng.choice([6, 10, 16, 30]), classes=focus if i % 5 else None)
     stats = corr.correspond(chk, AREA, exe, ops, case_start=CASE_START, classify=classify, sig_of=sig_of)
+    # PDUOption at storage level: real options, heap-block census, value oracle
+    oexe, oerr = core.build_harness(OPT_HARNESS)
+    if oexe is None:
+        chk.violation("option harness does not build: " + oerr[-1500:], ["build-error"], nofail=True)
+        return
+    ops = []
+    for c in opt_known_cases():
+        ops += c
+    for c in opt_exhaustive(rng, 3000 if quick else 10**6):
+        ops += c
+    for i in range(8000 if quick else 80000):
+        ops += gen_opt_case(rng, rng.choice([6, 10, 16, 30]))
+    stats += corr.correspond(chk, AREA, oexe, ops, case_start=OPT_CASE_START, classify=classify_opt, sig_of=sig_of)
+    if not quick:
+        ops = []
+        for c in opt_exhaustive(rng, 40000, depth=3):
+            ops += c
+        for i in range(3000):
+            ops += gen_opt_case(rng, 120)
+        stats += corr.correspond(chk, AREA, oexe, ops, case_start=OPT_CASE_START, classify=classify_opt, sig_of=sig_of)
     if not quick:
         ops = []
         for c in exhaustive_cases(table, 60000, rng, depth=3):      # seeded sample of the 3-operation scope
